@@ -75,7 +75,7 @@ void explore04(Options const& o, std::vector<Shim*> const& shims, std::vector<Sh
   bool th = o.tier == "thorough";
   C04 c(rec);
   std::vector<u64> in64 = int_inputs64(th);
-  std::vector<i64> Sx = th ? S_set(10,6) : S_set(8,4);
+  std::vector<i64> Sx = merge_sets(th ? S_set(10,6) : S_set(8,4), S2_set(th ? 3 : 2));
   // fixed -> int inputs: S u windows around every target limit u dense interval
   {
   i64 win = th ? (1<<16) : (1<<12);
@@ -342,7 +342,7 @@ void explore05(Options const& o, std::vector<Shim*> const& shims, std::vector<Sh
   std::sort(flt.begin(), flt.end()); flt.erase(std::unique(flt.begin(), flt.end()), flt.end());
   }
   // ---- fixed inputs for fixed -> fp: S, dense interval, and ties of the float format (halfway points between adjacent floats +- d)
-  std::vector<i64> fxs = th ? S_set(10,6) : S_set(8,4);
+  std::vector<i64> fxs = merge_sets(th ? S_set(10,6) : S_set(8,4), S2_set(th ? 3 : 2));
   {
   auto mp = mant_patterns(23, th ? 5 : 3);
   for( int e = 0; e <= 38; ++e ) for( u64 m : mp )
